@@ -469,6 +469,13 @@ def _set_traits(context, rp, traits):
     to_delete = existing_traits - want_traits
 
     if not to_add and not to_delete:
+        # Nothing to change, so the generation is not incremented; it still
+        # has to be the one the caller saw, or this request would succeed
+        # against a provider that was changed in the meantime.
+        sel = sa.select(_RP_TBL.c.generation).where(_RP_TBL.c.id == rp.id)
+        res = context.session.execute(sel).fetchone()
+        if not res or res[0] != rp.generation:
+            raise exception.ResourceProviderConcurrentUpdateDetected()
         return
 
     if to_delete:
